@@ -489,6 +489,13 @@ class Ctx:
             self.assume(g)
         elif r == z3.sat:
             m = self.last_solver.model()
+            dbg = os.environ.get('PYVC_GOAL')
+            if dbg:
+                import re as _re
+                if _re.search(dbg, label):
+                    print('GOAL %s\n%s\nPC:' % (label, g), flush=True)
+                    for c in self._relevant([neg])[0]:
+                        print('   ', str(c)[:600])
             self.results.append(ObligationResult(label, 'sat', self.read_model(m), dt, 'z3', list(self.trace), detail, size))
             # keep going on this path under the assumption, so that one defect yields one report per clause
             try:
